@@ -122,9 +122,10 @@ Definition errs_in (p : pseg) (ea : list err) : list err := map (err_in p) ea.
 (* a resolver invocation, as the harness logs it *)
 Record call := mkCall { c_node : nat; c_field : nat; c_args : list (nat * value) }.
 
-(* the request AST is written into while resolving: Field.Args is replaced by the
-   definition-ordered slice at first visit (and ConType is set) *)
-Record st := mkSt { s_args : list (nat * list (option arg)); s_calls : list call }.
+(* the request AST is written into while resolving: at a Field's first visit ConType is set and
+   Field.Args is replaced by the definition-ordered slice (sortArgs under that ConType); later
+   visits use the mutated Args *)
+Record st := mkSt { s_args : list (nat * nat) (* Field node -> ConType of its first visit; Field.Args = sortArgs under it *); s_calls : list call }.
 
 Inductive outcome (A : Type) := Done (a : A) | OutOfFuel.
 Arguments Done {A} a.
@@ -267,6 +268,26 @@ Definition sort_args (S : schema) (t : nat) (name : nat) (args : list arg) : lis
       end
   end.
 
+(* A resolver receives its arguments as a Go map: the call log holds the canonical form
+   (sorted by argument name). *)
+Fixpoint insert_arg (x : nat * value) (l : list (nat * value)) : list (nat * value) :=
+  match l with
+  | [] => [x]
+  | y :: r => if Nat.leb (fst x) (fst y) then x :: l else y :: insert_arg x r
+  end.
+Fixpoint canon_args (l : list (nat * value)) : list (nat * value) :=
+  match l with [] => [] | x :: r => insert_arg x (canon_args r) end.
+
+Fixpoint somes {A} (l : list (option A)) : list A :=
+  match l with [] => [] | Some x :: r => x :: somes r | None :: r => somes r end.
+
+(* Field.Args as Executable.String() prints them: the current (possibly re-ordered) slice, nil entries skipped *)
+Definition printed_args (S : schema) (s_args : list (nat * nat)) (id name : nat) (args : list arg) : list arg :=
+  match lookup id s_args with
+  | Some t0 => somes (fst (sort_args S t0 name args))
+  | None => args
+  end.
+
 (* ------------------------------------------------------------------ @skip / @include *)
 Definition cond_value (vars : list (nat * value)) (v : value) : option bool :=
   match v with
@@ -275,22 +296,22 @@ Definition cond_value (vars : list (nat * value)) (v : value) : option bool :=
   | _ => None
   end.
 
-(* root.skipSel: (skip?, errors).  Mirrors the loop: every directive assigns the flag. *)
+(* root.skipSel: (skip?, errors).  Mirrors the loop: every directive accumulates into the flag. *)
 Fixpoint skip_sel_loop (vars : list (nat * value)) (dirs : list dir) (skip : bool) (nerr : nat) : bool * nat :=
   match dirs with
   | [] => (skip, nerr)
   | d :: r =>
       match d_name d, d_if d with
-      | DSkip, Some (VBool b) => skip_sel_loop vars r b nerr
+      | DSkip, Some (VBool b) => skip_sel_loop vars r (skip || b) nerr
       | DSkip, Some (VVar x) =>
           match lookup x vars with
-          | Some (VBool b) => skip_sel_loop vars r b nerr
+          | Some (VBool b) => skip_sel_loop vars r (skip || b) nerr
           | _ => skip_sel_loop vars r true (S nerr)
           end
-      | DInclude, Some (VBool b) => skip_sel_loop vars r (negb b) nerr
+      | DInclude, Some (VBool b) => skip_sel_loop vars r (skip || negb b) nerr
       | DInclude, Some (VVar x) =>
           match lookup x vars with
-          | Some (VBool b) => skip_sel_loop vars r (negb b) nerr
+          | Some (VBool b) => skip_sel_loop vars r (skip || negb b) nerr
           | _ => skip_sel_loop vars r true (S nerr)
           end
       | _, _ => skip_sel_loop vars r skip nerr
@@ -362,6 +383,43 @@ Fixpoint union_member (obj : gv) (members : list nat) : option nat :=
       end
   end.
 
+(* resolve.go condApplies: no condition, identical type, an interface the object type implements,
+   or a union the object type is a member of *)
+Definition cond_applies (cond : option nat) (t : nat) : bool :=
+  match cond with
+  | None => true
+  | Some c =>
+      if Nat.eqb c t then true
+      else
+        match lookup t S with
+        | Some (DObject _ ifaces) =>
+            match lookup c S with
+            | Some (DInterface _) => existsb (Nat.eqb c) ifaces
+            | Some (DUnion members) => existsb (Nat.eqb t) members
+            | _ => false
+            end
+        | _ => false
+        end
+  end.
+
+(* root.getReflectType(reflect.TypeOf(obj)): the object type bound to the value's Go type
+   (every object type of the schema is registered to the Go type of the same number) *)
+Definition concrete_type (obj : gv) (static : nat) : nat :=
+  match gotype_of obj with
+  | Some gt => match lookup gt S with Some (DObject _ _) => gt | _ => static end
+  | None => static
+  end.
+
+(* the strategy switch of resolveField: a data node answered through Resolver or through the installed
+   AnyResolver (Some (Some n)); the AnyResolver asked about something that is not a data node
+   (Some None, it fails); or the reflection fallback (None) *)
+Definition strategy_of (obj : gv) : option (option nat) :=
+  match obj with
+  | GNodeR n => Some (Some n)
+  | GNodeA n => if any_installed then Some (Some n) else None
+  | _ => if any_installed then Some None else None
+  end.
+
 Definition res_t := (rv * list err * st)%type.
 Definition map_t := (list (nat * rv) * list err * st)%type.
 
@@ -380,8 +438,13 @@ Fixpoint resolve (fuel : nat) (obj : gv) (fid : nat) (fsels : list sel) (t : ty)
         | TNonNull b => resolve fuel' obj fid fsels b depth s
         | TNamed n =>
             match lookup n S with
-            | Some (DObject _ _) | Some (DInterface _) =>
+            | Some (DObject _ _) =>
                 match resolve_sels fuel' obj fsels n [] (depth - 1) s with
+                | Done (m, ea, s') => Done (RObj m, ea, s')
+                | OutOfFuel => OutOfFuel
+                end
+            | Some (DInterface _) =>
+                match resolve_sels fuel' obj fsels (concrete_type obj n) [] (depth - 1) s with
                 | Done (m, ea, s') => Done (RObj m, ea, s')
                 | OutOfFuel => OutOfFuel
                 end
@@ -500,17 +563,12 @@ with resolve_sels_loop (fuel : nat) (obj : gv) (sels : list sel) (t : nat) (resu
               match x with
               | SField id alias name args dirs fsels => resolve_field fuel' obj id alias name args fsels t result depth s
               | SInline _ cond _ isels =>
-                  (* resolveInline: identity test on the condition *)
-                  match cond with
-                  | None => resolve_sels fuel' obj isels t result depth s
-                  | Some c => if Nat.eqb c t then resolve_sels fuel' obj isels t result depth s else Done (result, [], s)
-                  end
+                  if cond_applies cond t then resolve_sels fuel' obj isels t result depth s else Done (result, [], s)
               | SFrag id fname _ =>
                   match lookup fname frags with
                   | None => Done (result, [], s)
                   | Some fr =>
-                      let applies := match fr_cond fr with None => true | Some c => Nat.eqb c t end in
-                      if applies then
+                      if cond_applies (fr_cond fr) t then
                         match resolve_sels fuel' obj (fr_sels fr) t result depth s with
                         | OutOfFuel => OutOfFuel
                         | Done (m, ea, s') => Done (m, errs_in (PFragAt id) ea, s')
@@ -539,9 +597,9 @@ with resolve_field (fuel : nat) (obj : gv) (id : nat) (alias : option nat) (name
       (* first visit: ConType = t; sortArgs *)
       let '(cur_args, ea_sort, s0) :=
         match lookup id (s_args s) with
-        | Some a => (a, [], s)
+        | Some t0 => (fst (sort_args S t0 name args), [], s)
         | None => let (a, e) := sort_args S t name args in
-                  (a, e, mkSt ((id, a) :: s_args s) (s_calls s))
+                  (a, e, mkSt ((id, t) :: s_args s) (s_calls s))
         end in
       match ea_sort with
       | _ :: _ => Done (result, errs_in (PKey key) ea_sort, s0)
@@ -552,11 +610,7 @@ with resolve_field (fuel : nat) (obj : gv) (id : nat) (alias : option nat) (name
             | None => Done (result, [mkErr [PKey key] (LNode id) ENotField], s0)
             | Some fd =>
                 (* strategy switch: Resolver, else AnyResolver when installed *)
-                let strat := match obj with
-                             | GNodeR n => Some (Some n)
-                             | GNodeA n => if any_installed then Some (Some n) else None
-                             | _ => if any_installed then Some None else None   (* AnyResolver.Resolve on a non-node fails *)
-                             end in
+                let strat := strategy_of obj in
                 let pre (ea : list err) := if Nat.ltb depth max_depth then errs_in (PKey key) ea else ea in
                 match strat with
                 | None =>
@@ -571,7 +625,7 @@ with resolve_field (fuel : nat) (obj : gv) (id : nat) (alias : option nat) (name
                     let '(attr, rerr, s1) :=
                       match ea_args, n with
                       | [], Some n' => let (a, e) := run_behav n' name cargs in
-                                       (a, e, mkSt (s_args s0) (s_calls s0 ++ [mkCall n' name cargs]))
+                                       (a, e, mkSt (s_args s0) (s_calls s0 ++ [mkCall n' name (canon_args cargs)]))
                       | [], None => (GNil, Some 0, s0)
                       | _, _ => (GNil, None, s0)
                       end in
@@ -641,7 +695,7 @@ Definition exec_op (S : schema) (G : graph) (any_installed : bool) (max_depth fu
   | None => Done (mkResp None [mkErr [] LNone EOpChoice] [], s)
   | Some o =>
       match bind_vars S (op_vars o) supplied with
-      | None => Done (mkResp None [mkErr [] LNone ECoerceIn] [], s)
+      | None => Done (mkResp None [mkErr [] LOther ECoerceIn] [], s)
       | Some vars =>
           (* resolveField(root.obj, vars, &Field{Alias:"data", Name: op.Type, Sels: op.Sels}, root.schema, result, MaxResolveDepth)
              the schema-level step: root.obj's field "query"/"mutation" yields the operation's root object *)
